@@ -342,7 +342,7 @@ PROPS = {
         assumptions=['the run of the EVM interpreter (go-ethereum v1.10.8, trusted) is a parameter of the model: gas left, refund counter, error flag, returned-code flag and the ordered balance-changing calls it made on the StateDB interface (SubBalance / AddBalance / Suicide) that survived its own reverts; in the correspondence these come from a reference run of the same interpreter on go-ethereum\'s own state (core/state over a memory db), not from the implementation',
                      'signature recovery (EIP-155), chain-id comparison, the envelope key\'s address, canonical spelling of payload and memo, JSON / RLP sizes and strconv.ParseUint of the memo are decoded facts of a transaction (Tx.sigOk, chainNil, chainOk, senderOk, signerKeyOk, payloadCanon, typeOk, memoCanon, size, memo); keccak is not modelled: the address of a created contract is an input',
                      'the theorems about an executed transaction are stated for an empty EVM object cache (an invariant of every history: step_keeps_cache_empty) and - for the exact sender / recipient / bystander equalities - accounts whose balance the contract code itself does not move; the value accounting (total\' = total - burnt, burnt = what the objects Finalise deletes still hold) assumes only the interpreter\'s own contract: the balance calls it makes on the state it is handed net to zero (an inner transfer credits what it debits, SELFDESTRUCT pays the beneficiary what Suicide then clears); burnt >= 0 (the total never grows) additionally assumes that the interpreter credits non-negative amounts and that the sender, an account without code, does not selfdestruct; burnt = 0 is proved for every run without a surviving Suicide call'],
-        model_limits='contract storage, code bytes and logs are not modelled (C16; in particular a creation whose runtime code is refused by the store - code equal to the deletion marker - fails in Finalise and is neither generated nor modelled); precompile recipients, contracts that CREATE and payloads that fail to unmarshal are neither generated nor modelled; branches of the model that the application cannot reach through ABCI in this tree because Validate runs first (TransitionDb nonce / EOA / funds / intrinsic-gas errors, ContractFeeHandling gas overflow, EVM.Call / create insufficient balance, address collision, a panicking SubBalance) are covered by the theorems but not by the correspondence; in the finite-block-gas family a transaction whose gas limit is within 3000 of what the block has left is not compared (the harness cannot observe the pool at the instant of buyGas) and a history ends before a transaction that could take the block gas meter over its limit while it runs: after that storage.State.Get falls through to the committed tree (reads of the rest of the block see last-commit values, e.g. the fee pool loses the fees of the block so far) - a storage-layer defect reported under C09, not yet repaired; transactions refused at the block gas pool (gas limit above what is left) are generated and compared, including the scripted case 4 (pool refusal of A, native SEND to A, OLVM transfer from / to A)'),
+        model_limits='contract storage, code bytes and logs are not modelled (C16; in particular a creation whose runtime code is refused by the store - code equal to the deletion marker - fails in Finalise and is neither generated nor modelled); precompile recipients, contracts that CREATE and payloads that fail to unmarshal are neither generated nor modelled; branches of the model that the application cannot reach through ABCI in this tree because Validate runs first (TransitionDb nonce / EOA / funds / intrinsic-gas errors, ContractFeeHandling gas overflow, Validate passing on a shut meter (needs a cost of zero), EVM.Call / create insufficient balance, address collision, a panicking SubBalance) are covered by the theorems but not by the correspondence; the block gas meter is an input of the model, not modelled: Env.gasPool (what is left at the gas-pool test), Env.meterShut (the meter of the deliver / check state is at or over its limit when the transaction arrives: every read of Validate is refused and swallowed, the sender looks empty) and Env.feeGasLeft (what is left when the fee step starts: the contract gas may take the meter to its limit, AddToPool then fails and the transaction fails as a whole); in the finite-block-gas family histories run through meter overflow; transactions on a shut meter and transactions refused at the gas pool are compared with the model (incl. scripted case 4), but where the meter is within 5000 of the gas limit of a transaction, or crosses its limit in the middle of Validate (0 < left < 2500), the harness cannot observe the meter at the deciding instant and only the monitors run (the fee-refusal branch of the model is therefore covered by theorem precheck_failure_noop and the monitor, not by the correspondence)'),
     'C04': dict(
         lean_modules=['OLP.Props.C04', 'OLP.Props.C04Facts'], namespaces=['OLP.Props.C04'],
         required_theorems=['validateBasic_iff', 'validateBasic_never_panics', 'signature_count_mismatch_rejected', 'substituted_signer_rejected',
